@@ -8,6 +8,7 @@ import (
 	"net/http"
 	"net/url"
 	"strconv"
+	"strings"
 	"time"
 
 	ct "github.com/google/certificate-transparency-go"
@@ -53,6 +54,7 @@ type c13Profile struct {
 	RAW     []int // by c13RAForms
 	CancelW int
 	Timeout time.Duration // http.Client.Timeout of the shared client; 0 = none
+	LogW    int           // weight of letting a parked logger call return (lower = the logger tends to be slow)
 }
 
 // model phases of one submitter
@@ -121,6 +123,11 @@ type c13World struct {
 	sctTS  uint64
 	wake   chan struct{} // signalled (never blocking) whenever an attempt reaches the transport
 
+	// logWho is the submitter whose goroutine the driver has just let run (set before every release
+	// of an attempt or of a timeout report). The client's Logger has no idea who calls it; in stepped
+	// mode only that one goroutine can reach a Printf before the next quiescent point.
+	logWho *submitter
+
 	// timed mode (timed.go)
 	tsubs    []*timedSub
 	tByParty map[string]*timedSub
@@ -157,6 +164,7 @@ func (w *c13World) Init(s *kernel.Sim) {
 	}
 	p.CancelW = t.Intn(3)
 	p.Timeout = c13Timeouts[t.Intn(len(c13Timeouts))]
+	p.LogW = []int{12, 3, 1}[t.Intn(3)]
 
 	w.ctx, w.cancel = context.WithCancel(context.Background())
 	w.wake = make(chan struct{}, 1)
@@ -165,7 +173,7 @@ func (w *c13World) Init(s *kernel.Sim) {
 	w.J, w.F = -1, -1
 	w.sctTS = 946684800000
 	lc, err := client.New("http://log.test/sim", &http.Client{Transport: &transport{s: s, onArrive: w.signalArrival}, Timeout: p.Timeout},
-		jsonclient.Options{PublicKeyDER: w.logKey.SPKI, Logger: quietLogger{}})
+		jsonclient.Options{PublicKeyDER: w.logKey.SPKI, Logger: seamLogger{w}})
 	if err != nil {
 		panic("harness: client.New: " + err.Error())
 	}
@@ -442,6 +450,7 @@ func (w *c13World) answer(p *kernel.Parked, o *served, ts uint64) {
 	if conv {
 		s.Probe("converted-hop")
 	}
+	w.logWho = sb
 	s.Release(p, kernel.Decision{Kind: "ok"})
 }
 
@@ -500,6 +509,55 @@ func (w *c13World) deliverTimeout(p *kernel.Parked) {
 	sb.phase, sb.L = phRetry, maxDur(now+capBackoff, w.J)+capJitter
 	w.F = now
 	s.Logf("client timeout -> %s#%d: attempt cancelled at %v by http.Client.Timeout=%v, reported now  [model %s L=%v]", sb.Party, c.Idx, c.AbortT, w.prof.Timeout, sb.phase, sb.L)
+	w.logWho = sb
+	s.Release(p, kernel.Decision{Kind: "ok"})
+}
+
+// seamLogger is the jsonclient.Logger of the shared client. The retry loop logs between recording a
+// failure in the shared back-off state (backoff.set) and reading that state for its wait
+// (backoff.until): a logger call is therefore a point at which one submission can be held while
+// others fail or are told to wait - a slow log sink. Every Printf parks in a seam of the calling
+// submitter. The driver never lets that submitter's context end while it is held there (no cancel
+// event, no clock advance across its deadline): the client goes from the logger straight into
+// `select { <-ctx.Done(); <-timer.C }`, often with a zero wait, and with both ready Go chooses at random.
+type seamLogger struct{ w *c13World }
+
+func (l seamLogger) Printf(format string, _ ...interface{}) {
+	w := l.w
+	s := w.s
+	if s.Timed || s.ShuttingDown() {
+		return
+	}
+	sb := w.logWho
+	if sb == nil {
+		return
+	}
+	what := "backing-off"
+	if strings.Contains(format, "retrying immediately") {
+		what = "retrying"
+	}
+	_, _ = s.Seam(w.ctx, sb.Party, "log", what, nil)
+}
+
+// logReturns lets a parked logger call return. The client reads the shared back-off only now: what
+// it may still wait for was fixed when the failure was recorded, so the latest admissible instant
+// of the next attempt is the old bound or this instant, whichever is later.
+func (w *c13World) logReturns(p *kernel.Parked) {
+	s := w.s
+	sb := w.byName[p.Party]
+	if sb.phase == phRetry || sb.phase == phEither {
+		// the shared state it reads now may hold what any outcome on the client has put there meanwhile
+		l := maxDur(s.Now(), w.J)
+		if w.F >= 0 {
+			l = maxDur(l, w.F+capBackoff)
+		}
+		if l += capJitter; l > sb.L {
+			sb.L = l
+		}
+	}
+	if s.Now() > sb.T {
+		s.Probe("log.held-across-time")
+	}
 	s.Release(p, kernel.Decision{Kind: "ok"})
 }
 
@@ -519,12 +577,22 @@ func (w *c13World) Options(s *kernel.Sim) []kernel.Option {
 	var opts []kernel.Option
 	all := s.ParkedCalls()
 	var parked, timeouts []*kernel.Parked // attempts waiting for the server / timed-out attempts waiting to be reported
+	inLog := map[string]bool{}
 	for _, p := range all {
-		if p.Name == "rt.timedout" {
+		switch p.Name {
+		case "log":
+			inLog[p.Party] = true
+			// first in the list: a zero tape lets every logger call return at once
+			p := p
+			opts = append(opts, kernel.Option{Key: "log returns " + p.Key, Weight: w.prof.LogW, Apply: func() { w.logReturns(p) }})
+		case "rt.timedout":
 			timeouts = append(timeouts, p)
-		} else {
+		default:
 			parked = append(parked, p)
 		}
+	}
+	if len(opts) > 0 && len(parked)+len(timeouts) > 0 {
+		s.Probe("log.held-while-others-pending")
 	}
 	for _, p := range parked {
 		p := p
@@ -565,7 +633,7 @@ func (w *c13World) Options(s *kernel.Sim) []kernel.Option {
 		}
 	}
 	for _, sb := range w.subs {
-		if sb.started && !sb.harvested && sb.ctxKind != 0 && sb.cancelT < 0 && w.prof.CancelW > 0 {
+		if sb.started && !sb.harvested && sb.ctxKind != 0 && sb.cancelT < 0 && w.prof.CancelW > 0 && !inLog[sb.Party] {
 			sb := sb
 			opts = append(opts, kernel.Option{Key: "cancel " + sb.Party, Weight: w.prof.CancelW, Apply: func() {
 				sb.cancelT = s.Now()
@@ -580,7 +648,15 @@ func (w *c13World) Options(s *kernel.Sim) []kernel.Option {
 			cw = []int{1, 1, 1, 1, 0, 0}
 		}
 		for i, d := range kernel.ClockLadder {
-			opts = append(opts, s.AdvanceOpt(d, cw[i]))
+			crosses := false // the deadline of a submitter held in its logger
+			for _, sb := range w.subs {
+				if inLog[sb.Party] && sb.deadlineT >= 0 && s.Now()+d >= sb.deadlineT {
+					crosses = true
+				}
+			}
+			if !crosses {
+				opts = append(opts, s.AdvanceOpt(d, cw[i]))
+			}
 		}
 	}
 	return opts
@@ -638,6 +714,12 @@ func (w *c13World) attemptEnded(sb *submitter, f fin) {
 // AfterStep evaluates the model against what the submitters did since the last quiescent point.
 func (w *c13World) AfterStep(s *kernel.Sim) {
 	now := s.Now()
+	inLog := map[string]bool{} // submitters held in their logger: the environment, not the client, delays them
+	for _, p := range s.ParkedCalls() {
+		if p.Name == "log" {
+			inLog[p.Party] = true
+		}
+	}
 	for _, sb := range w.subs {
 		if !sb.started || sb.harvested {
 			continue
@@ -702,7 +784,7 @@ func (w *c13World) AfterStep(s *kernel.Sim) {
 			case ended:
 				s.Violate("c13.ctx-not-prompt", fmt.Sprintf("ctxkind=%d phase=%s", sb.ctxKind, sb.phase), "%s: context ended at %v, call still running at %v (phase %s)", sb.Party, end, now, sb.phase)
 				return
-			case (sb.phase == phRetry || sb.phase == phEither) && now > sb.L:
+			case (sb.phase == phRetry || sb.phase == phEither) && now > sb.L && !inLog[sb.Party]:
 				s.Violate("c13.too-late", lateKey(sb.lastKind), "%s: no attempt by %v after %s at %v; nothing on the shared client justifies waiting beyond %v (J=%v F=%v)",
 					sb.Party, now, sb.lastKind, sb.T, sb.L, w.J, w.F)
 				return
